@@ -27,6 +27,9 @@ LEVEL_MODES = {
     "hi": lambda r: r.randint(7, 10),
     "all10": lambda r: 10,
     "two": lambda r: r.choice([0, 3]),
+    # mostly cheap entries and some exactly AT the maximum level: strings of level 10, 11, .. then exist ONLY through an
+    # entry of the last level of the table (what a trained ruleset looks like: unseen lengths / rare n-grams smoothed to 10)
+    "top": lambda r: r.choice([0, 0, 1, 2, 10, 10]),
 }
 
 
@@ -79,6 +82,59 @@ def gen_model(rng, force=None, max_strings=20000):
     om = {"ngram": ngram, "alphabet": alphabet, "ip": ip, "ep": [(0, s) for _, s in ip], "cp": cp, "ln": ln,
           "modes": {"ip": ip_mode, "cp": cp_mode, "ln": ln_mode, "density": density, "ip_density": ip_density,
                     "kmax": kmax, "dead": len(dead)}}
+    return om
+
+
+TOP_LEVEL = 10        # the last level of the OMEN tables (callers compare it with the constant extracted from the source)
+
+
+def gen_top_model(rng, max_strings=1500, force=None):
+    """A SMALL OMEN model (ngram 2-4, 3-5 symbols, 1-3 generated lengths) whose initial n-grams and/or lengths sit partly
+    (or all) exactly AT the maximum level while the rest is cheap, so that the levels 10, 11, .. (and 20, 21, .. when both
+    tables are involved) hold strings that can only be reached by selecting an entry of the last level of a table.
+    At least one initial n-gram or one generated length is at the maximum level; usually both tables have one."""
+    f = dict(force or {})
+    while True:
+        ip_mode = f.get("ip_mode", rng.choice(["top", "top", "top", "all10", "low", "wide"]))
+        ln_mode = f.get("ln_mode", rng.choice(["top", "top", "top", "all10", "low", "wide"]))
+        if "ip_mode" in f and "ln_mode" in f:
+            break
+        if not (ip_mode in ("low", "wide") and ln_mode in ("low", "wide")):
+            break
+    ngram = f.get("ngram", rng.choice([2, 2, 3, 3, 4]))
+    nalpha = f.get("nalpha", rng.randint(3, 5) if ngram < 4 else rng.randint(3, 4))
+    kmax = f.get("kmax", rng.randint(1, 3))
+    while True:
+        om = gen_model(rng, {"ngram": ngram, "nalpha": nalpha, "ip_mode": ip_mode, "ln_mode": ln_mode, "kmax": kmax,
+                             "cp_mode": f.get("cp_mode", rng.choice(["zero", "low", "low", "two", "mid", "top"])),
+                             "density": f.get("density", rng.choice([1.0, 0.8, 0.6, 0.4])),
+                             "ip_density": f.get("ip_density", rng.choice([1.0, 0.7, 0.4]))})
+        if count_bound(om) <= max_strings or kmax == 1:
+            break
+        kmax -= 1
+    n1 = ngram - 1
+    # plant: an entry AT the maximum level in each "top" table if the draw gave none, and a cheap one beside it
+    if ip_mode == "top":
+        if len(om["ip"]) < 2:
+            have = set(s for _, s in om["ip"])
+            rest = ["".join(t) for t in itertools.product(om["alphabet"], repeat=n1) if "".join(t) not in have]
+            if rest:
+                om["ip"].append((0, rng.choice(rest)))
+        if not any(l == TOP_LEVEL for l, _ in om["ip"]):
+            k = rng.randrange(len(om["ip"]))
+            om["ip"][k] = (TOP_LEVEL, om["ip"][k][1])
+        if len(om["ip"]) >= 2 and all(l == TOP_LEVEL for l, _ in om["ip"]):
+            k = rng.randrange(len(om["ip"]))
+            om["ip"][k] = (rng.choice([0, 1]), om["ip"][k][1])
+        om["ep"] = [(0, s) for _, s in om["ip"]]
+    if ln_mode == "top":
+        gen = list(range(n1, len(om["ln"])))               # positions of the lengths the guesser keeps (>= ngram)
+        if not any(om["ln"][k] == TOP_LEVEL for k in gen):
+            om["ln"][rng.choice(gen)] = TOP_LEVEL
+        if len(gen) >= 2 and all(om["ln"][k] == TOP_LEVEL for k in gen):
+            om["ln"][rng.choice(gen)] = rng.choice([0, 1])
+    om["modes"]["top_ip"] = sum(1 for l, _ in om["ip"] if l == TOP_LEVEL)
+    om["modes"]["top_ln"] = sum(1 for k in range(n1, len(om["ln"])) if om["ln"][k] == TOP_LEVEL)
     return om
 
 
